@@ -702,6 +702,46 @@ def gen_md_in_html(rng):
     return src, [('md_in_html', {})], None, D, ('<%s%s>' % (tag, attrs), '</%s>' % tag, before, after)
 
 
+# md_in_html, the other half of the documented rule: a block-level child that is NOT marked (or is marked `markdown="0"`) inside a marked
+# parent is left alone -- "everything inside that element is ignored" -- whatever mode the parent is parsed in (block, or span: `markdown="span"`
+# on any block tag, `markdown="1"` on li / td / th / dt / dd / h1-h6 / p)
+RAW_PAYLOAD = ['*RAWSTAR*', '[RAWLINK](http://example.com/raw)', '`RAWCODE`', '**RAWBOLD**', '_u_', 'plain', 'w1 w2', '\\*esc', '![i](s.png)', '# nohead', '- noitem', '1. no']
+RAW_CHILD = ['div', 'div', 'blockquote', 'section', 'pre', 'article']
+
+
+def gen_md_raw_child(rng):
+    """-> (src, payload)"""
+    payload = ' '.join(rng.choice(RAW_PAYLOAD) for _ in range(rng.randint(1, 4)))
+    if rng.random() < 0.3: payload += '\n' + ' '.join(rng.choice(RAW_PAYLOAD) for _ in range(rng.randint(1, 3)))
+    child = rng.choice(RAW_CHILD)
+    cattr = rng.choice(['', '', ' markdown="0"', ' markdown="0"', ' class="c"', ' class="c" markdown="0"'])
+    raw = '<%s%s>\n%s\n</%s>' % (child, cattr, payload, child)
+    k = rng.random()
+    lead = rng.choice(['*parsed*', 'lead *parsed* text', '*parsed* `c`'])
+    if k < 0.3:      # block parent
+        tag = rng.choice(['div', 'section', 'article', 'aside'])
+        src = '<%s markdown="%s">\n\n%s\n\n%s\n\n</%s>' % (tag, rng.choice(['1', 'block']), lead, raw, tag)
+    elif k < 0.6:    # span parent by attribute
+        tag = rng.choice(['div', 'section', 'article', 'aside'])
+        src = '<%s markdown="span">\n%s\n%s\n</%s>' % (tag, lead, raw, tag)
+    elif k < 0.8:    # span parent by tag: li
+        lst = rng.choice(['ul', 'ol'])
+        src = '<%s markdown="1">\n<li markdown="1">%s\n%s\n</li>\n</%s>' % (lst, lead, raw, lst)
+    else:            # span parent by tag: td
+        src = '<table markdown="1">\n<tr markdown="1">\n<td markdown="1">%s\n%s\n</td>\n</tr>\n</table>' % (lead, raw)
+    return src, payload
+
+
+def check_md_raw_child(src, exts, payload):
+    md = _mk(exts)
+    with time_limit(20):
+        got = md.convert(src)
+    if '<em>parsed</em>' not in got: return (got, 'the content of the marked parent rendered as Markdown (<em>parsed</em>)')
+    if payload not in got: return (got, 'the text of the unmarked / markdown="0" child verbatim: ' + payload)
+    if 'markdown=' in got: return (got, 'no markdown= attribute in the output')
+    return None
+
+
 def _strip_autolinks(doc):
     def inl(xs):
         out = []
@@ -872,6 +912,18 @@ def search(driver, rng, n):
             viol.append(_viol('md_in_html', src, exts, 'conversion raised %s: %s' % (type(e).__name__, e), 'wrapper + convert(D)', {'D': D, 'parts': list(parts)})); continue
         bump('render_md_in_html'); seen.add(('m', src))
         if prob: viol.append(_viol('md_in_html', src, exts, prob[0], prob[1], {'D': D, 'parts': list(parts)}))
+    for i in range(max(1, n // 6)):
+        src, payload = gen_md_raw_child(rng)
+        exts = [('md_in_html', {})]
+        cases += 1
+        try:
+            prob = check_md_raw_child(src, exts, payload)
+        except RecursionError:
+            bump('recursion_skip'); continue
+        except Exception as e:
+            viol.append(_viol('md_raw_child', src, exts, 'conversion raised %s: %s' % (type(e).__name__, e), 'raw child verbatim', {'payload': payload})); continue
+        bump('render_md_raw_child'); seen.add(('mr', src))
+        if prob: viol.append(_viol('md_raw_child', src, exts, prob[0], prob[1], {'payload': payload}))
     # (ii) non-interference
     mds = {}
 
@@ -945,6 +997,7 @@ def replay_violation(v):
             except RecursionError: return False
             except Exception: return True
         if c['kind'] == 'md_in_html': return check_md_in_html(v['input'], exts, c['D'], tuple(c['parts'])) is not None
+        if c['kind'] == 'md_raw_child': return check_md_raw_child(v['input'], exts, c['payload']) is not None
         import markdown
         base = [n for n, _ in exts]
         return markdown.markdown(v['input'], extensions=sorted(base + [c['extension']])) != markdown.markdown(v['input'], extensions=base)
